@@ -8,6 +8,8 @@ TARGETS = [
     "cascade.gateway.router:JobRouter.put_result",
     "cascade.gateway.router:JobRouter.get_result",
     "cascade.gateway.server:handle_controller",
+    "cascade.gateway.router:JobRouter.progress_of",
+    "cascade.gateway.server:handle_fe",
     "cascade.low.func:next_uuid",
 ]
 # server.handle_controller (the loop that stores every result a report carries) is under contract too since the engine knows that a
